@@ -18,9 +18,16 @@ class FlatCase:
             for k in range(1, len(p) + 1):
                 nodes.add(p[:k])
         self.nodes = sorted(nodes)
+        self.tn = ("ab", "e") if c.get("tn") else None          # this node is a tuple struct (`ab.e: T as ()`)
 
     def cm(self, i):
+        if self.tn and self.paths[i - 1] == self.tn:
+            return str(sum(1 for j in range(1, i) if self.paths[j - 1] == self.tn))
         return f"r{i}" if self.ms[i - 1]["it"] == "ren" else f"s{i}"
+
+    def xleaf(self, p):
+        """name of the leaf of DX's node p that no instruction mentions"""
+        return str(len(self.leaves(p))) if p == self.tn else "extra"
 
     def children(self, p):
         return [q for q in self.nodes if len(q) == len(p) + 1 and q[:len(p)] == p]
@@ -32,7 +39,7 @@ class FlatCase:
     def all_leaves(self, extra):
         out = []
         for p in [()] + self.nodes:
-            for l in self.leaves(p) + (["extra"] if extra else []):
+            for l in self.leaves(p) + ([self.xleaf(p)] if extra else []):
                 out.append(".".join(p + (l,)))
         return out
 
@@ -40,6 +47,9 @@ class FlatCase:
         out = ["#[derive(Clone)] pub struct ZZ {}"] if any(m["it"] == "cded" for m in self.ms) else []
         for pref, extra in (("D", False), ("DX", True)):
             for p in [()] + self.nodes:
+                if p == self.tn:
+                    out.append(f"#[derive(Clone)] pub struct {tyname(pref, p)}({' '.join('pub V,' for _ in range(len(self.leaves(p)) + (1 if extra else 0)))});")
+                    continue
                 fs = [f"pub {l}: V," for l in self.leaves(p)] + [f"pub {q[-1]}: {tyname(pref, q)}," for q in self.children(p)]
                 if extra:
                     fs.append("pub extra: V,")
@@ -50,6 +60,8 @@ class FlatCase:
         def a(l):
             full = ".".join(p + (l,))
             return f'mk("POISON.{full}")' if full == poison else f'mk("{atom}.{full}")'
+        if p == self.tn:
+            return f"{tyname(pref, p)}(" + ", ".join(a(l) for l in self.leaves(p) + ([self.xleaf(p)] if extra else [])) + ")"
         fs = [f"{l}: {a(l)}" for l in self.leaves(p)] + [f"{q[-1]}: {self.lit(pref, atom, q, extra, poison)}" for q in self.children(p)]
         if extra:
             fs.append(f'extra: {a("extra")}')
@@ -65,13 +77,16 @@ class FlatCase:
             elif m["path"]:
                 a.append(f'#[child({".".join(m["path"])})]')
             call = f"chk({i}, ~)?" if fallible else f"tg({i}, ~)"
-            if m["it"] == "expr":
+            if self.tn and tuple(m["path"]) == self.tn:
+                a.append(f"#[map({self.cm(i)}, {call})]" if m["it"] == "expr" else f"#[map({self.cm(i)})]")
+            elif m["it"] == "expr":
                 a.append(f"#[map({call})]")
             elif m["it"] == "ren":
                 a.append(f"#[map({self.cm(i)})]")
             fields.append(f'{" ".join(a)} pub s{i}: V,')
-        cps = ", ".join(f'{".".join(q)}: {tyname("D", q)}' for q in self.nodes)
-        cpsx = ", ".join(f'{".".join(q)}: {tyname("DX", q)}' for q in self.nodes)
+        hint = lambda q: " as ()" if q == self.tn else ""
+        cps = ", ".join(f'{".".join(q)}: {tyname("D", q)}{hint(q)}' for q in self.nodes)
+        cpsx = ", ".join(f'{".".join(q)}: {tyname("DX", q)}{hint(q)}' for q in self.nodes)
         if any(m["it"] == "cded" for m in self.ms):
             cps, cpsx = cps + ", zz: ZZ", cpsx + ", zz: ZZ"      # the shadowed default path must still be a declared one (validation looks at every #[child])
         # a default #[child_parents] naming types that do not exist is written FIRST: the dedicated ones are the ones that count (C05's rule)
@@ -122,4 +137,4 @@ class FlatCase:
                 f"pub fn run() {{\n  {(nl + '  ').join(run)}\n}} }}")
 
     def others(self):
-        return [l for l in self.all_leaves(True) if l.endswith("extra")]
+        return [".".join(p + (self.xleaf(p),)) for p in [()] + self.nodes]
